@@ -180,6 +180,11 @@ def run(cx):
     if b:
         cx.expect('EXPR', 'Alignment::new', cx.retval(b), '(agg * (transform (param transform)) (residuals (param residuals)))', 'Alignment::new stores its arguments', where=b.file)
 
+    # the rows of the 3D problem's Jacobian and the decomposition of the caller's starting guess (anchored in C08's files)
+    from rules import C08
+    C08.jacobian_rules(cx)
+    C08.euler_rules(cx)
+
 
 def run_thorough(cx):
     """thorough tier: the generic evaluators this property relies on must fire on their positive fixture twins"""
